@@ -529,11 +529,11 @@ def lin(t, body, depth=0):
             return rec(t[1], coef, depth + 1)
         if k == "call":
             name, args = t[2], t[3]
-            if name in ("add", "add_assign") and len(args) == 2:
+            if name in ("add", "add_assign", "saturating_add", "wrapping_add") and len(args) == 2:
                 rec(args[0], coef, depth + 1)
                 rec(args[1], coef, depth + 1)
                 return
-            if name in ("sub", "sub_assign") and len(args) == 2:
+            if name in ("sub", "sub_assign", "saturating_sub", "wrapping_sub") and len(args) == 2:
                 rec(args[0], coef, depth + 1)
                 rec(args[1], -coef, depth + 1)
                 return
